@@ -722,14 +722,27 @@ def _decompose_store(postv, prev):
         return a[0], Cx(a[1], b[1])
     if not isinstance(postv, SV) or not isinstance(prev, SV):
         return None
-    t = postv.t
-    if z3.is_app(t) and t.decl().kind() == z3.Z3_OP_ITE:
-        c, x, y = t.children()
-        if y.eq(prev.t):
-            return c, sv.wrap(x)
-        if x.eq(prev.t):
-            return z3.Not(c), sv.wrap(y)
-    return None
+    # general shape: a tree of ite whose leaves are either `prev` or stored values:  post = ite(cond, val, prev)
+    pt = prev.t
+
+    def dec(t, depth=0):
+        if t.eq(pt):
+            return z3.BoolVal(False), None
+        if z3.is_app(t) and t.decl().kind() == z3.Z3_OP_ITE and depth < 12:
+            c, x, y = t.children()
+            cx, vx = dec(x, depth + 1)
+            cy, vy = dec(y, depth + 1)
+            cond = z3.simplify(z3.Or(z3.And(c, cx), z3.And(z3.Not(c), cy)))
+            if vx is None:
+                return cond, vy
+            if vy is None:
+                return cond, vx
+            return cond, (vx if vx.eq(vy) else z3.If(c, vx, vy))
+        return z3.BoolVal(True), t
+    cond, val = dec(postv.t)
+    if val is None or z3.is_false(cond) or z3.is_true(cond):
+        return None
+    return cond, sv.wrap(val)
 
 
 def _index_equalities(cond, idz):
@@ -766,6 +779,28 @@ def _solve_writer(cond, iz, idz):
         else:
             conj.append(c)
     flat(z3.simplify(cond))
+
+    def common(c):
+        """equations implied by c: conjuncts of And, intersection over Or / Boolean ite"""
+        if z3.is_and(c):
+            out = {}
+            for ch in c.children():
+                out.update(common(ch))
+            return out
+        if z3.is_or(c) or (z3.is_app(c) and c.decl().kind() == z3.Z3_OP_ITE and z3.is_bool(c)):
+            kids = c.children() if z3.is_or(c) else c.children()[1:]
+            sets = [common(ch) for ch in kids]
+            keys = set(sets[0])
+            for s_ in sets[1:]:
+                keys &= set(s_)
+            return {k: sets[0][k] for k in keys}
+        if z3.is_eq(c):
+            return {c.get_id(): c}
+        return {}
+    if not any(z3.is_eq(c) for c in conj):
+        implied = list(common(z3.simplify(cond)).values())
+        if implied:
+            conj = implied + [z3.simplify(cond)]
     inverses = getattr(cur(), "inverses", None) or {}
     for n, c in enumerate(conj):
         if z3.is_eq(c) and inverses:
